@@ -206,8 +206,9 @@ func (p *Polygon) smoothVertex(i int) bool {
 	theta := math.Acos(v0.Dot(v1))
 	// distance from vertex to circle tangent
 	d1 := v.radius / math.Tan(theta/2.0)
-	if d1 > vp.vertex.Sub(v.vertex).Length() || d1 > vn.vertex.Sub(v.vertex).Length() {
+	if !(d1 <= vp.vertex.Sub(v.vertex).Length() && d1 <= vn.vertex.Sub(v.vertex).Length()) {
 		// unable to smooth - radius is too large
+		// (or an adjacent edge has zero length: d1 is NaN)
 		return false
 	}
 	// tangent points
